@@ -813,6 +813,18 @@ class Differ:
         ]] = []
         for lhs_idx, lhs_ele in enumerate(lhs):
             if not key_attr in lhs_ele:
+                # Only an identical RHS record can be this record's peer
+                twin_index = -1
+                for reduced_idx, rhs_pair in enumerate(rhs_reduced):
+                    if Differ._is_same_data(lhs_ele, rhs_pair[1]):
+                        twin_index = reduced_idx
+                        break
+                if twin_index > -1:
+                    (rhs_original_idx, rhs_ele) = rhs_reduced.pop(twin_index)
+                    syn_pairs.append(
+                        (lhs_idx, lhs_ele, rhs_original_idx, rhs_ele))
+                    continue
+
                 # Impossible to match this LHS record to any RHS record
                 self.logger.debug(
                     "LHS record has no identity key, {}, for record at {}:"
